@@ -56,6 +56,11 @@ def at_tf(e): return E('at_tf', E._w(e))
 def integral(e): return E('integral', E._w(e))
 def integral_control(e): return E('integral_control', E._w(e))
 def sum_(e, include_last=False): return E('sum', E._w(e), bool(include_last))
+def wsum(kind, rows, cols, weights, comps):
+    """sum_ij w_ij * K(M)_ij for a rows x cols matrix valued expression M (components column-major) and K = ocp.sum / ocp.sum(include_last) /
+    at_tf / at_t0 applied to the WHOLE matrix in one call ('sum', 'sum+', 'at_tf', 'at_t0')"""
+    assert len(comps) == rows * cols == len(weights)
+    return E('wsum', kind, int(rows), int(cols), tuple(Fraction(w) for w in weights), *[E._w(c) for c in comps])
 def offset(e, n): return E('offset', E._w(e), int(n))
 def nxt(e): return offset(e, 1)
 def prv(e): return offset(e, -1)
@@ -66,8 +71,8 @@ PINF = E('inf', 1)                   # +infinity as a bound component of a (vect
 NINF = E('inf', -1)
 
 
-LEAVES = {'c', 'x', 'u', 'z', 'p', 'v', 't', 'T', 't0', 'tf', 'DT', 'DTc', 'q', 'inf'}
-WRAP = {'at_t0', 'at_tf', 'integral', 'integral_control', 'sum', 'offset', 'der', 'inf_der'}
+LEAVES = {'c', 'x', 'u', 'z', 'p', 'v', 't', 'T', 't0', 'tf', 'DT', 'DTc', 'q', 'inf', 'xg'}     # 'xg': a whole (vector valued) declared state; MX reading only
+WRAP = {'at_t0', 'at_tf', 'integral', 'integral_control', 'sum', 'wsum', 'offset', 'der', 'inf_der'}
 
 
 def show(e):
@@ -77,7 +82,7 @@ def show(e):
         return str(e.a[0])
     if e.op == 'inf':
         return 'inf' if e.a[0] > 0 else '-inf'
-    if e.op in ('x', 'u', 'z', 'q'):
+    if e.op in ('x', 'u', 'z', 'q', 'xg'):
         return '%s%d' % (e.op, e.a[0])
     if e.op in ('p', 'v'):
         return '%s[%s,%d]' % (e.op, e.a[0], e.a[1])
@@ -89,6 +94,8 @@ def show(e):
         return '-%s' % show(e.a[0])
     if e.op == 'pow':
         return '%s^%d' % (show(e.a[0]), e.a[1])
+    if e.op == 'wsum':
+        return 'w.%s(%dx%d[%s])' % (e.a[0], e.a[1], e.a[2], ', '.join(show(x) for x in e.a[4:]))
     return '%s(%s)' % (e.op, ', '.join(show(x) for x in e.a))
 
 
